@@ -44,3 +44,53 @@ Proof.
   rewrite (scalar_selective tb cs c r init lst s search sel H1 H2 H3), (scalar_selective tb cs c r init lst s' search sel H1 H2 H3). reflexivity.
 Qed.
 Print Assumptions C14_value_independent.
+
+(* ---------- precision, all positions ---------- *)
+From Proofs Require Import WalkerRel SelFrame.
+
+(* A subtree in which no name matches R (no key, no '$field' reference; no key that opens an Atlas
+   Search stage) under a path on which no name matches R is left exactly as it is - by every walker,
+   in every mode outside search stages, for ANY tables, whatever the values are. ("" is the pseudo
+   name the walkers use for array contexts; R must not match it.) *)
+Theorem C14_unmatched_untouched : forall tb cs c A r t m,
+  re c = Some r -> nss c = false -> r ""%string = false ->
+  mode_quiet r m -> nodup_keys t -> quiet tb r t ->
+  walk tb cs c is_email A m t = t.
+Proof. intros tb cs c A r t m H1 H2 H3. exact (walk_quiet_frame tb cs c is_email A r H1 H2 H3 t m). Qed.
+Print Assumptions C14_unmatched_untouched.
+
+(* the query-bearing values of a command document *)
+Theorem C14_command_untouched : forall tb cs c A r ins k v,
+  re c = Some r -> nss c = false -> r ""%string = false -> nodup_keys v -> quiet tb r v ->
+  cmd_member tb cs c A false ins k v = v.
+Proof.
+  intros tb cs c A r ins k v H1 H2 H3 Hn Hq.
+  assert (HQ : q_obj tb cs c A false v = v).
+  { destruct v; try reflexivity. unfold q_obj, W. apply (walk_quiet_frame tb cs c is_email A r H1 H2 H3); auto. repeat split; reflexivity. }
+  assert (HA : a_arr tb cs c A false v = v).
+  { destruct v; try reflexivity. unfold a_arr, W. apply (walk_quiet_frame tb cs c is_email A r H1 H2 H3); auto. repeat split; auto. }
+  assert (HP : pipe tb cs c A false v = v).
+  { destruct v as [| | | | l |]; try reflexivity. unfold pipe, W. f_equal. rewrite <- (map_id l) at 2. apply map_ext_in. intros st Hin.
+    rewrite nodup_keys_arr in Hn. rewrite (quiet_arr tb r) in Hq. rewrite (stage_quiet tb r st (Hq st Hin)).
+    apply (walk_quiet_frame tb cs c is_email A r H1 H2 H3); auto. repeat split; reflexivity. }
+  unfold cmd_member.
+  destruct (key_in k _); [exact HQ|].
+  destruct (key_in k _); [unfold q_or_a; destruct v; try reflexivity; [exact HA | exact HQ]|].
+  destruct (key_in k _); [exact HA|].
+  destruct (String.eqb k "documents"); [destruct ins; [exact HA | reflexivity]|].
+  destruct (String.eqb k "pipeline"); [exact HP | reflexivity].
+Qed.
+Print Assumptions C14_command_untouched.
+
+(* non-vacuity: R = (name is "ssn"); a filter with a matching and a non-matching branch *)
+From Gen Require Import Tables Consts.
+Open Scope string_scope.
+Example C14_example :
+  let r := fun s => String.eqb s "ssn" in
+  let c := {| repl := "REDACTED"; nums := false; bools := false; ips := false; nss := false; eager := []; re := Some r |} in
+  let quiet_part := JObj [("city", JObj [("$in", JArr [JStr "Paris"; JStr "Rome"])]); ("age", JNum "5")] in
+  quiet current r quiet_part /\
+  walk current current_consts c is_email (real_actions current_consts c None) (MQ false false MNil []) quiet_part = quiet_part /\
+  walk current current_consts c is_email (real_actions current_consts c None) (MQ false false MNil [])
+       (JObj [("ssn", JStr "123-45-6789")]) = JObj [("ssn", JStr "REDACTED")].
+Proof. vm_compute. repeat split; try reflexivity; intros; discriminate. Qed.
